@@ -14,6 +14,14 @@ What is run
     2 (quick) / 3 (thorough) items of a 12-item alphabet of declarations) + seeded random prologs; for each the
     first handler reached by the real SafeExpatParser is compared with the model, and the property is evaluated
     through XMLResource on a rotating channel.
+(2b) file-like sources in every INITIAL STATE: seekable / non-seekable x binary / text streams (real files,
+    io.BufferedReader, raw stream, and recording streams that log every read with its absolute position and the
+    phase -- before / during / after the scan) at position 0, at a position k (inside the first markup, the XML
+    declaration, the DOCTYPE, after it, inside the root start tag, at the end), or used before by another library
+    call that does not defuse them (fetch_namespaces, fetch_schema_locations, XMLResource(defuse='never') eager /
+    lazy, iter_errors) x payload x role (XMLResource, XMLSchema, schema.decode) x mode.  For a seekable source the
+    initial state must be irrelevant; for every source the parser must start where the scan started.  Model:
+    Model/OpenFlow.lean (driver op `open_flow`: where the scan starts, where the parser starts, refusal).
 (3) schema builds: seeded random trees of schema documents (include / import, local files and stub URLs,
     payloads from the grammar); the real sequence of open / scan / parse / failure events of every resource is
     recorded and compared with the model's `build`.
@@ -67,7 +75,7 @@ from harness import lib_prolog as G
 PROPS = 'XsVerif.Props.C13'
 AUDIT = 'XsVerif.Audit.C13'
 LEAN_TARGETS = ['XsVerif.Props.C13', 'drv_c13']
-LEANCHECK = ['XsVerif.Model.Defuse', 'XsVerif.Model.Prolog', 'XsVerif.Lemmas.Defuse', 'XsVerif.Lemmas.Prolog',
+LEANCHECK = ['XsVerif.Model.Defuse', 'XsVerif.Model.Prolog', 'XsVerif.Model.OpenFlow', 'XsVerif.Lemmas.Defuse', 'XsVerif.Lemmas.Prolog',
              'XsVerif.Props.C13']
 RULE = ('one case = (defuse mode, base-URL locality, input channel, payload, role) on the real library, the payload '
         'catalogue (syntax trees printed by the Lean grammar) crossed exhaustively with modes, localities, channels and '
@@ -77,7 +85,8 @@ RULE = ('one case = (defuse mode, base-URL locality, input channel, payload, rol
         'seeded read/seek/tell script on the real DefusableReader; non-trivial = defusing applied (a branch of open() '
         'other than "not defused" was taken), the prolog has a DOCTYPE, the build loaded at least one sub-resource, the '
         'script crossed the buffer edge or sought, the scan of a scan/rewind/parse sequence went beyond the buffer, the '
-        'parsers reported an event or a reference was not "undefined" (event model); distinct by canonical JSON')
+        'parsers reported an event or a reference was not "undefined" (event model), the file-like source was not at '
+        'position 0 when the library opened it (initial-state family); distinct by canonical JSON')
 TRUSTED = ['expat calls EntityDeclHandler / UnparsedEntityDeclHandler / ExternalEntityRefHandler before it expands or '
            'fetches anything: observed on every payload (no expanded text, no fetch; resolver and opener traps silent), '
            'not proved',
@@ -172,6 +181,7 @@ class Obs:
     resolver: list = []         # external-entity resolver trap: calls of the SAX entity-resolution machinery
     requests: list = []         # opener trap: every urllib.Request created (audit event)
     net: list = []              # opener trap: every socket.connect / socket.getaddrinfo (audit event)
+    phase: str = 'pre'          # 'pre' (before any scan) / 'scan' (inside defuse_xml) / 'parse' (after it)
 
 
 def _hook(event: str, args: tuple) -> None:
@@ -299,11 +309,18 @@ def install_observers() -> None:
         if Obs.active:
             Obs.defuse_calls.append(rec)
             Obs.trace.append(('scanned', Obs.stack[-1] if Obs.stack else '?', rec))
+        before = Obs.phase
+        Obs.phase = 'scan'
         try:
-            return orig(fp, rewind)
+            res = orig(fp, rewind)
+            if res is not fp and hasattr(res, 'tell'):
+                rec['wrapper_at'] = res.tell()      # position of the replay reader handed to the parser
+            return res
         except BaseException as e:
             rec['result'] = type(e).__name__
             raise
+        finally:
+            Obs.phase = 'parse' if before in ('pre', 'parse') else before
 
     xr.defuse_xml = defuse_xml
     orig_seek = DefusableReader.seek
@@ -914,6 +931,7 @@ def explore(ctx: Ctx, drv: Optional[Driver], full: bool) -> None:
                 elif 'scan_end' in impl and (impl['scan_end'], impl['buf_len']) != (m['scan_end'], m['buf_len']):
                     ctx.mismatch('position of the reader after the scan / length of its buffer', case, impl, m)
         grammar_family(ctx, drv, R, full)
+        initial_states(ctx, drv, R, mats, full)
         build_traces(ctx, drv, R, full)
         if drv is not None:
             witnesses(ctx, drv)
@@ -1185,6 +1203,306 @@ def grammar_family(ctx: Ctx, drv: Optional[Driver], R: str, full: bool) -> None:
             elif 'scan_end' in impl and (impl['scan_end'], impl['buf_len']) != (m['scan_end'], m['buf_len']):
                 ctx.mismatch('position of the reader after the scan / length of its buffer (grammar family)', case, impl, m)
     event_model(ctx, drv, R, fam, mats)
+
+
+# ----------------------------------------------------------------------------------------------
+# (2b) file-like sources in every INITIAL STATE
+# ----------------------------------------------------------------------------------------------
+class PosBuf(io.BufferedIOBase):
+    """a binary stream (seekable or not) that logs every read with its absolute position and the phase it occurs in"""
+
+    def __init__(self, data: bytes, seekable: bool):
+        self._d, self._p, self._sk, self.log = data, 0, seekable, []
+
+    def readable(self):
+        return True
+
+    def seekable(self):
+        return self._sk
+
+    def read(self, n=-1):
+        n = len(self._d) if n is None or n < 0 else n
+        d = self._d[self._p:self._p + n]
+        self.log.append((Obs.phase, self._p, len(d)))
+        self._p += len(d)
+        return d
+
+    def read1(self, n=-1):
+        return self.read(n)
+
+    def tell(self):
+        if not self._sk:
+            raise io.UnsupportedOperation('tell')
+        return self._p
+
+    def seek(self, pos, whence=0):
+        if not self._sk:
+            raise io.UnsupportedOperation('seek')
+        self._p = pos if whence == 0 else self._p + pos if whence == 1 else len(self._d) + pos
+        return self._p
+
+
+class PosText(io.TextIOBase):
+    """the same for text"""
+
+    def __init__(self, text: str, seekable: bool):
+        self._d, self._p, self._sk, self.log = text, 0, seekable, []
+
+    def readable(self):
+        return True
+
+    def seekable(self):
+        return self._sk
+
+    def read(self, n=-1):
+        n = len(self._d) if n is None or n < 0 else n
+        d = self._d[self._p:self._p + n]
+        self.log.append((Obs.phase, self._p, len(d)))
+        self._p += len(d)
+        return d
+
+    def tell(self):
+        if not self._sk:
+            raise io.UnsupportedOperation('tell')
+        return self._p
+
+    def seek(self, pos, whence=0):
+        if not self._sk:
+            raise io.UnsupportedOperation('seek')
+        self._p = pos if whence == 0 else self._p + pos if whence == 1 else len(self._d) + pos
+        return self._p
+
+
+# stream kinds of the family: (seekable, text?, recording?)
+STATE_STREAMS = {'fileb': (True, False, False), 'filet': (True, True, False), 'bufreader': (True, False, False),
+                 'posbuf': (True, False, True), 'postext': (True, True, True),
+                 'nsposbuf': (False, False, True), 'nspostext': (False, True, True), 'nsraw': (False, False, False)}
+STATE_INITS = ['0', 'k:1', 'k:xmldecl', 'k:doctype', 'k:after', 'k:root', 'eof', 'used:fetch_namespaces',
+               'used:fetch_schema_locations', 'used:XMLResource', 'used:iter_errors', 'used:XMLResource-lazy']
+STATE_PAYLOADS = ['plain', 'xmldecl', 'comments-pis', 'doctype-decls', 'internal', 'xmldecl-internal', 'standalone-internal',
+                  'external-file', 'parameter', 'unparsed', 'extdtd-system', 'attr-default-entity', 'standalone-extdtd',
+                  'peref-then-entity', 'big-comment-entity', 'big-comment-clean']
+STATE_ROLES = ['instance', 'schema', 'instance', 'decode']
+_AUX: dict = {}
+
+
+def aux_schema(mode: str) -> Any:
+    """a schema for the root element `r`, built from clean text with the given defuse mode"""
+    from xmlschema import XMLSchema10
+    if mode not in _AUX:
+        _AUX[mode] = XMLSchema10(f'<xs:schema xmlns:xs="{XS}"><xs:element name="r" type="xs:string"/></xs:schema>',
+                                 defuse=mode)
+    return _AUX[mode]
+
+
+def state_stream(kind: str, x: Mat, path: str) -> tuple[Any, Any]:
+    """(stream, closer)"""
+    if kind == 'fileb':
+        f = open(path, 'rb')
+        return f, f
+    if kind == 'filet':
+        f = open(path, 'r', encoding='utf-8', newline='')
+        return f, f
+    if kind == 'bufreader':
+        return io.BufferedReader(io.BytesIO(x.data)), None
+    if kind == 'nsraw':
+        return NSRaw(x.data), None
+    seekable, text, _ = STATE_STREAMS[kind]
+    return (PosText(x.text, seekable) if text else PosBuf(x.data, seekable)), None
+
+
+def state_position(init: str, x: Mat, text: bool) -> Optional[int]:
+    """the position of an initial state `k:…` in the units of the stream (the catalogue payloads used are ASCII)"""
+    doc = x.text
+    total = len(doc) if text else len(x.data)
+    body = len(doc) - len(x.body)
+    dt = doc.find('<!DOCTYPE')
+    return {'0': 0, 'k:1': 1, 'k:xmldecl': 5, 'k:doctype': (dt + 12) if dt >= 0 else min(7, total),
+            'k:after': body, 'k:root': body + 2, 'eof': total}.get(init)
+
+
+def put_in_state(fp: Any, init: str, x: Mat, text: bool) -> None:
+    """bring the stream into the initial state: sniff `k` units, or use it with another library call that does not
+    defuse it (default mode 'remote' on a stream without base URL / defuse='never')"""
+    import xmlschema
+    from xmlschema import XMLResource
+    k = state_position(init, x, text)
+    if k is not None:
+        if k:
+            fp.read(k)
+        return
+    try:
+        if init == 'used:fetch_namespaces':
+            xmlschema.fetch_namespaces(fp)
+        elif init == 'used:fetch_schema_locations':
+            xmlschema.fetch_schema_locations(fp)
+        elif init == 'used:XMLResource':
+            XMLResource(fp, defuse='never')
+        elif init == 'used:XMLResource-lazy':
+            XMLResource(fp, defuse='never', lazy=True)
+        elif init == 'used:iter_errors':
+            list(aux_schema('never').iter_errors(fp))
+    except Exception:           # noqa   (what the earlier call said is not the point)
+        pass
+
+
+def run_state(R: str, role: str, kind: str, init: str, mode: str, x: Mat, lazy: bool) -> dict:
+    """one library call on a file-like source in an initial state"""
+    from xmlschema import XMLResource, XMLSchema10
+    from xmlschema.exceptions import XMLResourceForbidden, XMLResourceOSError, XMLSchemaException
+    path = os.path.join(R, 'state.xml')
+    seekable, text, recording = STATE_STREAMS[kind]
+    fp, closer = state_stream(kind, x, path)
+    out: dict[str, Any] = {'outcome': 'parsed', 'tree': None, 'exc': None}
+    if role == 'decode':
+        aux_schema(mode)            # built outside the observed region
+    with warnings.catch_warnings():
+        warnings.simplefilter('ignore')
+        put_in_state(fp, init, x, text)
+        try:
+            out['pos0'] = fp.tell() if seekable else (fp._p if recording else None)
+        except (OSError, ValueError):
+            out['pos0'] = None
+        if recording:
+            fp.log.clear()
+        Obs.opens, Obs.served, Obs.defuse_calls, Obs.seeks = [], [], [], []
+        Obs.resolver, Obs.requests, Obs.net = [], [], []
+        Obs.phase = 'pre'
+        Obs.active = True
+        try:
+            if role == 'instance':
+                res = XMLResource(fp, defuse=mode, lazy=lazy)
+                out['tree'] = canon_tree(res.root)
+            elif role == 'schema':
+                schema = XMLSchema10(fp, defuse=mode)
+                out['tree'] = ','.join(sorted(k for k in schema.maps.elements if not k.startswith('{' + XS)))
+            else:
+                out['tree'] = repr(aux_schema(mode).decode(fp, validation='lax')[0])
+        except XMLResourceForbidden as e:
+            out['outcome'], out['exc'] = 'forbidden', type(e).__name__
+        except XMLResourceOSError as e:
+            out['outcome'], out['exc'], out['msg'] = 'oserror', type(e).__name__, str(e)[:80]
+        except (XMLSchemaException, ET.ParseError, OSError, UnicodeError) as e:
+            out['outcome'], out['exc'], out['msg'] = 'parsed', type(e).__name__, str(e)[:80]
+        except Exception as e:          # noqa
+            out['outcome'], out['exc'], out['msg'] = 'FOREIGN', type(e).__name__, str(e)[:80]
+        finally:
+            Obs.active = False
+            Obs.phase = 'pre'
+            if closer is not None:
+                closer.close()
+    out['defuse_calls'], out['seeks'] = list(Obs.defuse_calls), list(Obs.seeks)
+    out['secret_opened'] = any(p.endswith('secret.txt') for p in Obs.opens)
+    out['ext_served'] = [u for u in Obs.served if u.endswith('ext.dtd')]
+    out['resolver'], out['foreign_requests'], out['net'] = list(Obs.resolver), list(Obs.requests), list(Obs.net)
+    if recording:
+        log = fp.log
+        sc = [e for e in log if e[0] == 'scan']
+        first_scan = log.index(sc[0]) if sc else None
+        pa = [e for e in (log[first_scan:] if sc else log) if e[0] in ('parse', 'pre')]
+        out['scan_from'] = sc[0][1] if sc else None
+        out['parse_from'] = pa[0][1] if pa else None
+        calls = out['defuse_calls']
+        if not seekable and sc and calls and calls[0]['result'] == 'ok' and 'wrapper_at' in calls[0]:
+            # the parser reads the replay reader: its position 0 is where the wrapper was built
+            out['parse_from'] = sc[0][1] + calls[0]['wrapper_at']
+    return out
+
+
+def state_check(ctx: Ctx, drv: Optional[Driver], R: str, x: Mat, role: str, kind: str, init: str, mode: str, lazy: bool,
+                pname: str, reqs: list, pend: list) -> None:
+    seekable, text, recording = STATE_STREAMS[kind]
+    with open(os.path.join(R, 'state.xml'), 'wb') as f:
+        f.write(x.data)
+    does_apply = applies(mode, None)
+    case = {'state': init, 'stream': kind, 'role': role, 'mode': mode, 'payload': pname, 'refuse': x.refuse,
+            'channel': 'fileb' if seekable else 'nsbuf', 'encoding': 'utf-8', 'base': 'absent'}
+    if lazy:
+        case['lazy'] = True
+    if x.irregular:
+        case['irregular'] = x.irregular
+    out = run_state(R, role, kind, init, mode, x, lazy)
+    ctx.case(case, init != '0', tag='initial-state')
+    ctx.count('state:init:' + init.split(':')[0])
+    ctx.count('state:stream:' + kind)
+    ctx.count('state:outcome:' + out['outcome'])
+    det = {k: out.get(k) for k in ('outcome', 'exc', 'msg', 'pos0', 'scan_from', 'parse_from', 'seeks',
+                                   'secret_opened', 'ext_served')}
+    det['tree'] = (out.get('tree') or '')[:200]
+    if seekable:
+        # the position of a seekable stream is irrelevant: the property as for a fresh stream
+        ref = None
+        if does_apply and not x.refuse:
+            ref = run_state(R, role, kind, '0', 'never', x, lazy)
+        evaluate(ctx, case, out, ref, does_apply)
+    elif does_apply:
+        # a non-seekable stream delivers only its rest: whatever that is, nothing is expanded or fetched
+        if out['outcome'] == 'FOREIGN':
+            ctx.failure('a non-library exception escaped', case, det)
+        if out.get('resolver') or out.get('foreign_requests') or out.get('net') or out['secret_opened'] or out['ext_served']:
+            ctx.failure('something tried to fetch an external resource although defusing applies', case, det)
+        if out.get('tree') and MARK in out['tree']:
+            ctx.failure('an entity was expanded although defusing applies', case, det)
+    if recording and does_apply and out['scan_from'] is not None:
+        # direct reading of the caller's obligation: the parser starts where the scan started; at 0 if seekable
+        if out['parse_from'] is not None and out['parse_from'] != out['scan_from']:
+            ctx.failure('the parser is fed the stream from another position than the scan was', case, det)
+        if seekable and out['scan_from'] != 0:
+            ctx.failure('the scan of a seekable stream did not start at the beginning of the document', case, det)
+    if recording and drv is not None and out['pos0'] is not None and not lazy:
+        units_ = x.text.encode('latin-1', 'replace') if text else x.data
+        reqs.append({'op': 'open_flow', 'seekable': seekable, 'hex': units_.hex(), 'pos': out['pos0'],
+                     'defused': does_apply})
+        pend.append((case, {'scan_from': out['scan_from'], 'parse_from': out['parse_from'],
+                            'refused': out['outcome'] == 'forbidden'}, out))
+
+
+def initial_states(ctx: Ctx, drv: Optional[Driver], R: str, mats: dict, full: bool) -> None:
+    """Channel dimension x initial state: seekable / non-seekable, binary / text file-like sources at position 0, at a
+    position k (inside the first markup, the XML declaration, the DOCTYPE, after it, inside the root start tag, at
+    the end) or used before by another library call that does not defuse them.  The property on the real code: for
+    a SEEKABLE source the initial state is irrelevant (refused / same tree as a fresh stream without defusing); for
+    every source nothing is expanded or fetched.  Against the model (`OpenFlow`, driver op `open_flow`): where the
+    scan starts, where the parser starts, whether the document is refused."""
+    kinds = list(STATE_STREAMS)
+    combos = []
+    n = 0
+    for pi, pname in enumerate(STATE_PAYLOADS):
+        for ii, init in enumerate(STATE_INITS):
+            for ki, kind in enumerate(kinds):
+                n += 1
+                if not full and (pi + ii + ki) % 3 and not (pname in ('internal', 'extdtd-system') and init != '0'):
+                    continue
+                combos.append((pname, init, kind, n))
+    reqs, pend = [], []
+    for pname, init, kind, n in combos:
+        role = STATE_ROLES[n % len(STATE_ROLES)]
+        if init == 'used:iter_errors' and role == 'schema':
+            role = 'instance'
+        seekable, text, recording = STATE_STREAMS[kind]
+        x = mats[(pname, 'schema' if role == 'schema' else 'instance', 'utf-8')]
+        if len(x.data) > 20000 and n % 4:
+            continue
+        mode = MODES[3] if n % 5 else MODES[n % 3]          # mostly 'always'; 'never' / 'remote' / 'nonlocal' too
+        lazy = role == 'instance' and n % 7 == 3
+        state_check(ctx, drv, R, x, role, kind, init, mode, lazy, pname, reqs, pend)
+    state_compare(ctx, drv, reqs, pend)
+
+
+def state_compare(ctx: Ctx, drv: Optional[Driver], reqs: list, pend: list) -> None:
+    if drv is not None:
+        for (case, impl, out), m in zip(pend, drv.query(reqs)):
+            ctx.traces += 1
+            if 'err' in m:
+                ctx.mismatch('driver error (open_flow)', case, impl, m)
+                continue
+            if out['outcome'] == 'oserror':
+                continue            # refused by the rewind of the replay reader (C13-F2 shape on unrepaired trees)
+            model = {'scan_from': m['scan_from'] if impl['scan_from'] is not None else None,
+                     'parse_from': m['parse_from'] if impl['parse_from'] is not None else None, 'refused': m['refused']}
+            if model != impl:
+                ctx.mismatch('open() on a file-like source in an initial state: where the scan / the parser start, '
+                             'refusal vs OpenFlow', case, impl, m)
 
 
 # ----------------------------------------------------------------------------------------------
@@ -1575,6 +1893,21 @@ def replay(ctx: Ctx, obj: dict) -> int:
             print('REAL CODE:', det)
             if drv is not None:
                 print('MODEL    :', drv.query([req])[0])
+        elif 'state' in case:
+            p = [q for q in payloads(R, BIG) if q['name'] == case['payload']][0]
+            role, kind = case['role'], case['stream']
+            dk = 'schema' if role == 'schema' else 'instance'
+            x = materialise(ctx, drv, [payload_ast(p, dk, 'utf-8')], [body_of(p, dk)], ['utf-8'], 'replay')[0]
+            print('DOCUMENT :', x.data[:300], '| stream', kind, STATE_STREAMS[kind], '| initial state', case['state'])
+            reqs, pend = [], []
+            state_check(ctx, drv, R, x, role, kind, case['state'], case['mode'], bool(case.get('lazy')), case['payload'],
+                        reqs, pend)
+            for c_, impl, out in pend:
+                print('REAL CODE:', {k: out.get(k) for k in ('outcome', 'exc', 'pos0', 'scan_from', 'parse_from')},
+                      (out.get('tree') or '')[:120])
+            if drv is not None and reqs:
+                print('MODEL    :', drv.query(reqs)[0])
+            state_compare(ctx, drv, reqs, pend)
         elif 'reader' in case or 'reader-scan' in case:
             # a script / a scan-rewind-parse sequence on the real replay reader, against a plain byte string
             from xmlschema.utils.streams import DefusableReader
